@@ -22,10 +22,18 @@ pub open spec fn spec_default_verify_signature<C: Ciphersuite>(msg: Seq<u8>, sig
         Err(e) => Err(e),
         Ok(t) => match C::spec_hook_challenge(t.1.R, t.2, t.0) {
             Err(e) => Err(e),
-            Ok(c) => spec_verify_prehashed::<C>(t.2.element.0, c, t.1),
+            Ok(c) => spec_verify_prehashed::<C>(t.2, Challenge(c), t.1),
         },
     }
 }
+// verification hooks (C19, C01): `pre_verify` hands the three inputs back unchanged, `challenge` is the RFC 9591 challenge,
+// `verify_signature` is RFC 9591 verification (spec functions in lemmas/vspec_batch.rs)
+pub open spec fn spec_default_pre_verify<C: Ciphersuite>(msg: Seq<u8>, signature: Signature<C>, public_key: VerifyingKey<C>) -> Result<(Seq<u8>, Signature<C>, VerifyingKey<C>), Error<C>>
+{ Ok((msg, signature, public_key)) }
+pub open spec fn spec_default_challenge<C: Ciphersuite>(R: Element<C>, verifying_key: VerifyingKey<C>, message: Seq<u8>) -> Result<Challenge<C>, Error<C>>
+{ spec_rfc_challenge::<C>(R, verifying_key, message) }
+pub open spec fn spec_default_verify_signature_rfc<C: Ciphersuite>(message: Seq<u8>, signature: Signature<C>, public_key: VerifyingKey<C>) -> Result<(), Error<C>>
+{ spec_verify::<C>(public_key, message, signature) }
 
 pub open spec fn default_world<C: Ciphersuite>() -> bool {
     &&& forall|a: SigningPackage<C>, b: crate::round1::SigningNonces<C>, c: KeyPackage<C>| #[trigger] C::spec_pre_sign(a, b, c) == Ok::<(SigningPackage<C>, crate::round1::SigningNonces<C>, KeyPackage<C>), Error<C>>((a, b, c))
@@ -44,6 +52,9 @@ pub open spec fn default_world<C: Ciphersuite>() -> bool {
     &&& forall|stream: spec_fn(nat) -> u8, pos: nat| #[trigger] C::spec_generate_nonce(stream, pos) == spec_default_generate_nonce::<C>(stream, pos)
     &&& forall|s: BTreeMap<Identifier<C>, SecretShare<C>>, p: PublicKeyPackage<C>| #[trigger] C::spec_post_generate(s, p) == Ok::<(BTreeMap<Identifier<C>, SecretShare<C>>, PublicKeyPackage<C>), Error<C>>((s, p))
     &&& forall|k: KeyPackage<C>, p: PublicKeyPackage<C>| #[trigger] C::spec_post_dkg(k, p) == Ok::<(KeyPackage<C>, PublicKeyPackage<C>), Error<C>>((k, p))
+    &&& forall|m: Seq<u8>, s: Signature<C>, k: VerifyingKey<C>| #[trigger] C::spec_pre_verify(m, s, k) == spec_default_pre_verify::<C>(m, s, k)
+    &&& forall|r: Element<C>, k: VerifyingKey<C>, m: Seq<u8>| #[trigger] C::spec_challenge(r, k, m) == spec_default_challenge::<C>(r, k, m)
+    &&& forall|m: Seq<u8>, s: Signature<C>, k: VerifyingKey<C>| #[trigger] C::spec_verify_signature(m, s, k) == spec_default_verify_signature_rfc::<C>(m, s, k)
 }
 
 // ASSUMPTION (per unit): the ciphersuite does not override the optional hooks
